@@ -71,6 +71,9 @@ def compare(cfg, stream, spec, sent, ctx) -> None:
     if exc is not None:
         ctx.violation(f"C02:read-raised:{type(exc).__name__}", f"read() raised {exc!r} on a clean stream", case)
         return
+    if any(o.get("poison") for o in frames):
+        ctx.violation("C02:returned-list-shared-between-calls", "read() handed back an object that the caller had appended to the list returned by an earlier call", case)
+        return
     ctx.count("frames_sent", len(sent))
     ctx.count("frames_returned", len(frames))
     if len(frames) != len(sent):
